@@ -24,19 +24,19 @@ type nfNode struct {
 }
 
 type rvStack struct {
-	paren, not   bool
-	n            int
-	childKind    string // of the only child when n==1: leaf stack cond nil
-	childParen   bool
-	depth        int
+	paren, not bool
+	n          int
+	childKind  string // of the only child when n==1: leaf stack cond nil
+	childParen bool
+	depth      int
 }
 
 type rvInfo struct {
-	leafSeq  []string
-	depth    int
-	nodes    int
-	stacks   map[string]rvStack // by underlying identity
-	order    []string
+	leafSeq []string
+	depth   int
+	nodes   int
+	stacks  map[string]rvStack // by underlying identity
+	order   []string
 }
 
 // walkReal inspects a real object through Len/Index/Expression/Kind/IsParen/Keyword/Operator only.
@@ -349,9 +349,9 @@ func init() {
 			"SetMutex on a random third of the nodes, negative/forward index options on a random quarter. Oracle (two walks of the real object through Len/Index/Expression/Kind/IsParen before and after Reveal): identical depth-first leaf/Condition sequence; identical fully-unwrapped normal form; " +
 			"depth and node count do not grow; every stack that disappeared was a redundant wrapper (non-parenthetical, non-NOT, exactly one non-parenthetical Stack/Condition child); no stack instance appears; root instance kept; no panic; no self-deadlock and no leaked lock (lock-ownership tracking through the verifPoint hook). " +
 			"non-trivial = the tree has an eligible wrapper at depth>=1 and an ineligible single-child wrapper; distinct = distinct tree JSON",
-		Gen: genC20,
-		Run: runC20,
-		Floors: map[string]float64{"reveal-changed-something": 0.2, "mutex-nodes": 0.5, "cond-holding-stack": 0.1, "chain-length-2": 0.05},
+		Gen:         genC20,
+		Run:         runC20,
+		Floors:      map[string]float64{"reveal-changed-something": 0.2, "mutex-nodes": 0.5, "cond-holding-stack": 0.1, "chain-length-2": 0.05},
 		Assumptions: []string{"an alias and its native conversion are the same node (Reveal re-inserts the converted native value)", "trees are acyclic and no instance is shared between two positions"},
 	})
 }
